@@ -810,6 +810,7 @@ func checkC14(c *Check, p *Program) {
 	})
 	c.Floor("C14.Q3", "trim sites in the sending function", nTrim, 1)
 	checkRouterDefaults(c, p, "C14.Q3", a)
+	checkConfigNormalisers(c, p, "C14.Q3", "RouterConfig")
 
 	// ---- Q4 resend
 	ln := FuncName(a.lostH)
